@@ -202,7 +202,9 @@ type DeviceEntry struct {
 
 func (p DevicePart) StoreDeviceAuthorization(_ context.Context, clientID, deviceCode, userCode string, expires time.Time, scopes []string) error {
 	s := p.S
+	s.mu.Lock()
 	s.LastDeviceAttempt = [2]string{deviceCode, userCode} // observation only: what the framework drew, also when the call fails
+	s.mu.Unlock()
 	if err := s.enter("StoreDeviceAuthorization", clientID); err != nil {
 		return err
 	}
